@@ -510,6 +510,23 @@ def lifecycle():
     bb = fn_body(pm, "process_inproc_binding_request_event")
     emit_nat("inprocRefusalKeepsBinder", 1 if re.search(
         r"validate_socket_compatibility\([^)]*\)\s*\{.{0,400}?reply_tx\.send\(Err\(e\)\);\s*return Ok\(\(\)\);", bb, re.S) else 0)
+    # record layer of the encrypted mechanisms
+    fr = strip_comments(src("core/src/security/framer/mod.rs"))
+    mm = re.search(r"const MAX_RECORD_PLAINTEXT: usize = u16::MAX as usize - (\d+);", fr)
+    emit_nat("MAX_RECORD_PLAINTEXT", 65535 - int(mm.group(1)) if mm else 0)
+    emit_nat("recordsAreChunked", len(re.findall(r"self\.seal_records\(&plaintext\)", fr)) if re.search(r"for chunk in plaintext\.chunks\(MAX_RECORD_PLAINTEXT\)", fr) else 0)
+    emit_nat("recordLengthChecked", 1 if re.search(r"if ciphertext\.len\(\) > u16::MAX as usize \{\s*return Err", fr) else 0)
+    emit_nat("recordReaderAppendsPlaintext", 1 if re.search(r"let plaintext = self\.cipher\.decrypt\(&encrypted_frame\)\?;\s*self\.decrypted_buffer\.extend_from_slice\(&plaintext\);", fr) else 0)
+    en2 = strip_comments(src("core/src/protocol/zmtp/engine.rs"))
+    emit_nat("controlFramesThroughFramer", len(re.findall(r"match self\.frame_control\((?:ping_msg|pong)\)", en2)))
+    cc = strip_comments(src("core/src/security/curve/cipher.rs"))
+    emit_nat("curveNonceCountersStartAtOne", 1 if re.search(r"send_nonce_counter: 1,\s*recv_nonce_counter: 1,", cc) else 0)
+    emit_nat("curveNonceIncrementsPerRecord", len(re.findall(r"self\.(?:send|recv)_nonce_counter \+= 1;", cc)))
+    ch = strip_comments(src("core/src/security/curve/handshake.rs"))
+    bk = fn_body("core/src/security/curve/handshake.rs", "into_session_keys")
+    emit_nat("curveDataKeysFromStaticKeysOnly", 1 if "crypto_kx_server_session_keys" in bk and "ephemeral" not in bk else 0)
+    nx = strip_comments(src("core/src/security/noise_xx.rs"))
+    emit_nat("noiseRefusesOversizeRecord", 1 if re.search(r"if plaintext\.len\(\) > \(u16::MAX as usize - NOISE_TAG_LEN\) \{\s*return Err", nx) else 0)
     # close/term: accounting of actors, what a closed socket answers, who notices a shutdown they missed the event of
     cx = strip_comments(src("core/src/context.rs"))
     emit_nat("actorStartedAddsToWaitGroup", 1 if re.search(r"fn publish_actor_started.*?wg\.add\(1\);", cx, re.S) else 0)
